@@ -123,7 +123,8 @@ impl fmt::Display for Display<'_> {
 
         self.unit.format_suffix(f, self.pluralize)?;
 
-        let mut power = (self.data.power * self.n) as u32;
+        // NB: widened, since `i32::MIN * -1` does not fit an `i32`.
+        let mut power = (i64::from(self.data.power) * i64::from(self.n)) as u32;
 
         if power != 1 {
             if power < 10 {
